@@ -49,6 +49,11 @@ pub struct EnvState {
     pub slept_req_secs: u64,
     /// sum of the milliseconds requested (saturating)
     pub slept_req_ms: u64,
+    // ---- storage model used by cuts of storage::{certificate_files_exists, get_certificate}
+    pub files_exist: bool,
+    pub cert_file: [u8; 24],
+    pub cert_file_len: usize,
+    pub cert_unreadable: bool,
 }
 pub static mut ENV: EnvState = EnvState {
     magic: 0x5EED_C0DE_ACED_0001,
@@ -59,6 +64,10 @@ pub static mut ENV: EnvState = EnvState {
     sleep_strict: false,
     slept_req_secs: 0,
     slept_req_ms: 0,
+    files_exist: false,
+    cert_file: [0; 24],
+    cert_file_len: 0,
+    cert_unreadable: false,
 };
 pub fn env() -> &'static mut EnvState {
     unsafe { &mut *core::ptr::addr_of_mut!(ENV) }
